@@ -304,7 +304,7 @@ class Inliner:
                     return self.methods[(cls, nm)], True
         return None, False
 
-    def expand_call(self, call, cls, depth):
+    def expand_call(self, call, cls, depth, owner=None):
         """-> (prefix statements, value expression) or None"""
         fn, is_method = self.callee(call, cls)
         if fn is None or depth > 3:
@@ -319,6 +319,24 @@ class Inliner:
         self.counter += 1
         self.expanded[id(fn)] = self.expanded.get(id(fn), 0) + 1
         tag = '__%s_%d' % (fn.name.strip('_'), self.counter)
+        taken = set()
+        if owner is not None:
+            for n in ast.walk(getattr(self, 'top_owner', None) or owner):
+                if isinstance(n, ast.Name):
+                    taken.add(n.id)
+                elif isinstance(n, ast.arg):
+                    taken.add(n.arg)
+                elif isinstance(n, ast.FunctionDef):
+                    taken.add(n.name)
+        else:
+            taken = None
+
+        def fresh(base):
+            # the helper's own name for a local is kept when the caller does not use that name (reports and name-based bindings read naturally)
+            if taken is not None and base not in taken:
+                taken.add(base)
+                return base
+            return base + tag
         local = set()
         for s in stmts:
             for n in _walk_own(s):
@@ -336,21 +354,21 @@ class Inliner:
             aggregate = isinstance(arg, (ast.Tuple, ast.Dict)) and p in (extra[0], extra[1])
             simple_arg = isinstance(arg, (ast.Name, ast.Constant, ast.Attribute, ast.Lambda)) or aggregate
             if p in local or (uses > 1 and not simple_arg) or (in_nested and not simple_arg):
-                t = p + tag
+                t = fresh(p)
                 pre.append(ast.copy_location(ast.Assign(targets=[ast.Name(id=t, ctx=ast.Store())], value=copy.deepcopy(arg), lineno=call.lineno), call))
                 mapping[p] = t
             elif aggregate and uses:
                 # *args / **kwargs of the helper: a named local tuple / dict literal (element-wise uses are resolved by the lowering passes)
-                t = p + tag
+                t = fresh(p)
                 pre.append(ast.copy_location(ast.Assign(targets=[ast.Name(id=t, ctx=ast.Store())], value=copy.deepcopy(arg), lineno=call.lineno), call))
                 mapping[p] = t
             else:
                 mapping[p] = arg
         if is_method:
             pass
-        for l in local:
+        for l in sorted(local):
             if l not in mapping or not isinstance(mapping[l], str):
-                mapping[l] = l + tag
+                mapping[l] = fresh(l)
         out = list(pre)
         rn = _Rename(mapping)
         for s in stmts:
@@ -370,7 +388,11 @@ class Inliner:
         return out, val
 
     def process_function(self, fn, cls, depth=0):
-        fn.body = self.process_block(fn.body, cls, depth, fn)
+        self.top_owner = fn         # names of the whole enclosing function are reserved (a nested def must not have its free variables shadowed)
+        try:
+            fn.body = self.process_block(fn.body, cls, depth, fn)
+        finally:
+            self.top_owner = None
 
     def process_block(self, stmts, cls, depth, owner):
         out = []
@@ -416,14 +438,29 @@ class Inliner:
         me = self
 
         class T(ast.NodeTransformer):
+            nested = 0          # inside a lambda / comprehension only helpers that are one expression can be inlined (nothing can be hoisted)
+
+            def _nested(self, n):
+                self.nested += 1
+                try:
+                    return self.generic_visit(n)
+                finally:
+                    self.nested -= 1
+
             def visit_Lambda(self, n):
-                return n
+                return self._nested(n)
 
             def visit_ListComp(self, n):
-                return n
+                return self._nested(n)
 
             def visit_GeneratorExp(self, n):
-                return n
+                return self._nested(n)
+
+            def visit_SetComp(self, n):
+                return self._nested(n)
+
+            def visit_DictComp(self, n):
+                return self._nested(n)
 
             def visit_IfExp(self, n):
                 n.test = self.visit(n.test)
@@ -438,10 +475,14 @@ class Inliner:
                 fnode, _ = me.callee(n, cls)
                 if fnode is owner or fnode is None:
                     return n
-                r = me.expand_call(n, cls, depth)
+                saved = (me.counter, dict(me.expanded))
+                r = me.expand_call(n, cls, depth, owner)
                 if r is None:
                     return n
                 pre, val = r
+                if self.nested and pre:
+                    me.counter, me.expanded = saved[0], saved[1]
+                    return n
                 prefix.extend(pre)
                 return val
         new = T().visit(e)
@@ -1131,4 +1172,7 @@ def normalize_module(tree, modname):
     AppendLoop().visit(tree)
     TupleCanon().visit(tree)
     ast.fix_missing_locations(tree)
+    lower.lower_module(tree, inl, extra_passes=(lambda t: spell.visit(t),))       # copies left by tuple splitting, folds exposed by the loop passes
+    if inl.helpers or inl.methods:
+        _drop_dead_helpers(tree, inl)
     return tree
